@@ -858,7 +858,7 @@ pub fn run_c18(s: &C18Scn, st: &mut Stats) -> RunResult {
     for i in 0..n_records {
         input.extend_from_slice(&c18_record(s, i));
     }
-    let cfg = Cfg { cap: s.cap, policy: PolicySpec::Std, script: s.script.clone(), cuts: vec![], faults: vec![], intr_burst: None };
+    let cfg = Cfg { cap: s.cap, policy: PolicySpec::Std, script: s.script.clone(), cuts: vec![], faults: vec![], intr_burst: None, lift: None };
     let seam = new_seam(0);
     let src = SimSource::new(Rc::new(input), &cfg, seam.clone());
     let pol = SimPolicy::new(PolicySpec::Std, seam.clone());
